@@ -304,6 +304,8 @@ def run(ctx):
     from . import c06
     from .common import shared
 
+    from . import c07 as _c07
+    shared(ctx, "C05.b", _c07.rule_d, why="lengths and face areas of the transport problem come from the grid generate_grid builds for the image: first-moment bound and thin-grid costs need each axis with its own voxel size")
     shared(ctx, "C05.b", c06.rule_c, why="the transport cost is the quadrature of |face_to_cell(flux, pt)|")
     # the reported value is the cost of a mass-conserving flux only if every linear solve uses a factorisation of its own matrix (C04.g)
     from . import c04, c17
